@@ -199,17 +199,36 @@ def d4(ctx, prog):
         any(pol and norm(t).replace(' ', '') == "mode=='decrypt'" for t, pol in astutil.guards(flips[0], pm))
     ctx.check(ok, 'C05-D4', f'{pk.key}::reverse for decrypt', 'the round keys are not reversed along the round axis (axis 1 of (keys, rounds, 16)) exactly for decryption',
               'round-key axis reversed for decryption only', pk.where())
-    pc = prog.need_func(A, '_parametric_cipher')
-    loops = [l for l in ast.walk(pc.node) if isinstance(l, ast.For) and isinstance(l.iter, ast.Call) and norm(l.iter.func) == 'enumerate' and norm(l.iter.args[0]) == 'rounds']
-    ok = False
-    if len(loops) == 1 and isinstance(loops[0].target, ast.Tuple):
-        i = loops[0].target.elts[0].id
-        ok = any(isinstance(c, ast.Call) and norm(c.func) == 'add_round_key' and any(k.arg == 'keys' and norm(k.value).replace(' ', '') == f'round_keys[:,{i},:]' for k in c.keywords)
-                 for c in ast.walk(loops[0]))
-    ctx.check(ok, 'C05-D4', f'{pc.key}::round key index', 'round i does not use round_keys[:, i, :]', 'round i uses round_keys[:, i, :]', pc.where())
-    # every non-key operation is applied to the running state
-    ok = any(isinstance(s, ast.Assign) and norm(s).replace(' ', '') == 'out_state=operation(state=out_state)' for s in ast.walk(pc.node))
-    ctx.pattern(ok, 'C05-D4', f'{pc.key}::apply operation', 'operations are not applied to the running state in list order', 'each operation applied to the running state, in list order', pc.where())
+    from .. import inline
+    pc0 = prog.need_func(A, '_parametric_cipher')
+    pc = inline.inlined(prog, pc0, skip={'_prepare_rounds', '_prepare_keys', '_is_bytes_of_len', '_identity'})
+    key = f'{pc0.key}::round loop'
+    loops = [l for l in ast.walk(pc.node) if isinstance(l, ast.For) and isinstance(l.iter, ast.Call) and norm(l.iter.func) == 'enumerate' and norm(l.iter.args[0]) == 'rounds'
+             and isinstance(l.target, ast.Tuple) and len(l.target.elts) == 2 and all(isinstance(x, ast.Name) for x in l.target.elts)]
+    if len(loops) != 1:
+        ctx.undecided('C05-D4', key, 'the loop over the prepared rounds (for i, ops in enumerate(rounds)) was not found', pc0.where())
+        return
+    ri, rops = loops[0].target.elts[0].id, loops[0].target.elts[1].id
+    inner = [l for l in ast.walk(loops[0]) if isinstance(l, ast.For) and l is not loops[0] and (norm(l.iter) == rops or (isinstance(l.iter, ast.Call) and norm(l.iter.func) == 'enumerate' and norm(l.iter.args[0]) == rops))]
+    if len(inner) != 1:
+        ctx.undecided('C05-D4', key, 'the loop over the operations of a round was not found', pc0.where())
+        return
+    opv = inner[0].target.id if isinstance(inner[0].target, ast.Name) else (inner[0].target.elts[-1].id if isinstance(inner[0].target, ast.Tuple) and isinstance(inner[0].target.elts[-1], ast.Name) else None)
+    calls_ark = [c for c in ast.walk(inner[0]) if isinstance(c, ast.Call) and norm(c.func) in ('add_round_key', opv) and any(k.arg == 'keys' for k in c.keywords)]
+    ok = bool(calls_ark) and all(norm(next(k.value for k in c.keywords if k.arg == 'keys')).replace(' ', '') == f'round_keys[:,{ri},:]' for c in calls_ark)
+    if calls_ark:
+        ctx.check(ok, 'C05-D4', f'{pc0.key}::round key index', f'round {ri} does not use round_keys[:, {ri}, :] (`{norm(calls_ark[0])[:70]}`)', f'round {ri} uses round_keys[:, {ri}, :]', pc0.where())
+    else:
+        ctx.undecided('C05-D4', f'{pc0.key}::round key index', 'the key-mixing call (keys=...) was not found in the round loop', pc0.where())
+    # every operation is applied to the running state, which is what the next operation receives
+    applies = [s for s in ast.walk(inner[0]) if isinstance(s, ast.Assign) and isinstance(s.value, ast.Call) and norm(s.value.func) in (opv, 'add_round_key')]
+    good = bool(applies)
+    for a_ in applies:
+        tgt = norm(a_.targets[0])
+        arg = next((norm(k.value) for k in a_.value.keywords if k.arg == 'state'), norm(a_.value.args[0]) if a_.value.args else None)
+        good = good and arg == tgt
+    ctx.pattern(good and len({norm(a_.targets[0]) for a_ in applies}) == 1, 'C05-D4', f'{pc0.key}::apply operation', 'operations are not applied to the running state in list order',
+                'each operation applied to the running state, in list order', pc0.where())
 
 
 def d6(ctx, prog):
